@@ -231,4 +231,14 @@ PROPS = {
                "Scheduling of the routing thread is not controlled (repeated sampling with jitter and bursts).",
                "cases = (stream plans with message script, prefix length, creating thread, consumer kind, jitter; idle-burst probe); non-trivial = >=2 streams created from different threads with both pre-queued and later messages, or an idle-burst probe over >=2 threads; distinct = distinct canonical JSON"),
     ),
+    "C08": dict(
+        jobs=lambda tier: [dict(build="os", params={"sndbuf": "4096", "cases": "1200" if tier == "quick" else "20000"}, shards=8 if tier == "quick" else 16),
+                           dict(build="os", params={"cases": "200" if tier == "quick" else "3000"}, shards=2 if tier == "quick" else 4),
+                           dict(build="inproc", params={"sndbuf": "4096", "cases": "600" if tier == "quick" else "10000"}, shards=4 if tier == "quick" else 8)],
+        meta=M("exploration",
+               "generated one-shot-server scenarios (event orders x client kinds: thread, forked child, re-executed helper process) with descriptor/temp-file snapshots as leak oracle",
+               "Per case 1..24 (quick) / 1..200 (thorough) servers are alive at once; for each a client (thread, forked child or spawned helper process) connects and sends 1..20 small/multi-packet messages, some with region attachments, in one of the orders: client finishes and exits before accept; accept already waiting; prefix - accept - rest. Some servers are dropped unused, with or without a connected client. accept must return the first message and a receiver yielding the rest in order and then Disconnected; names must be distinct; after accept/drop /proc/self/fd and the private TMPDIR must equal the snapshot taken before the servers were created plus exactly one descriptor per held receiver, and equal it exactly after everything was dropped.",
+               "The in-process build checks only the behavioural half (no files or descriptors exist there).",
+               "cases = (per server: client kind, message script with attachments, event order, dropped unused, connects); non-trivial = >=2 messages queued before accept, or the client exited before accept, or >=2 servers alive; distinct = distinct (build, params, canonical JSON)"),
+    ),
 }
